@@ -253,6 +253,27 @@ def r2_decoder(program, folder, rep, fmt, enc):
     rep.floor("C15-R2", 12)
 
 
+def _fields(packs):
+    """[(byte order, code, value term)] of a sequence of (format, values)
+    packs, repeat counts expanded; AnalysisError for formats with pad bytes
+    or strings (their counts are lengths)."""
+    import re
+    out = []
+    for fmt, vals in packs:
+        order = fmt[0] if fmt and fmt[0] in "@=<>!" else "@"
+        body = fmt[1:] if fmt and fmt[0] in "@=<>!" else fmt
+        codes = []
+        for cnt, code in re.findall(r"(\d*)([A-Za-z?])", body):
+            if code in "spx":
+                raise AnalysisError("struct format %r: not field-wise" % fmt)
+            codes.extend([code] * (int(cnt) if cnt else 1))
+        if len(codes) != len(vals):
+            raise AnalysisError("struct format %r does not match %d values"
+                                % (fmt, len(vals)))
+        out.extend((order, c, v) for c, v in zip(codes, vals))
+    return out
+
+
 def r3_scp(program, folder, rep):
     # --- encoder -----------------------------------------------------------
     fn = program.get(MOD + ":SCPPacket.packed_data")
@@ -322,7 +343,10 @@ def r3_scp(program, folder, rep):
             if pr:
                 want.append(("<I", [("attr", SELF, "arg%d" % (k + 1))]))
         got = [packed(x) for x in parts[:-1]]
-        ok = got == want and parts[-1] == ("attr", SELF, "data")
+        # compared field by field: '<2H' and '<HH' (or two packs of '<H')
+        # lay down the same bytes
+        ok = None not in got and _fields(got) == _fields(want) and \
+            parts[-1] == ("attr", SELF, "data")
         n_case += 1
         names = [("arg%d" % (k + 1)) for k, pr in enumerate(present) if pr]
         rep.check(ok, "C15-R3", inst, "with arguments %s present the packed "
@@ -419,6 +443,18 @@ def r3_scp_decoder(program, folder, rep):
             continue
         off = it.sym(c.args[2], node)
         st = it.describe(node)
+        if not it.holds_at(node, eq(off, 4 * (k - 1))) and \
+                isinstance(c.args[2], ast.Name):
+            fl_ = Flow(fn)
+            ds_ = fl_.reaching(c.args[2].id, fl_.cfg.node_containing(c))
+            if len(ds_) > 1:
+                # a running offset advanced under earlier tests: its value
+                # here depends on which of them passed, which the interval
+                # state does not keep
+                raise AnalysisError("SCP decoder: arg%d is read at a "
+                                    "running offset (%s) whose value depends "
+                                    "on the earlier tests; not followed" %
+                                    (k, c.args[2].id))
         rep.check(it.holds_at(node, eq(off, 4 * (k - 1))), "C15-R3", inst,
                   "arg%d is read at body offset %d" % (k, 4 * (k - 1)),
                   construct="arg%d offset" % k, node=c,
